@@ -342,7 +342,7 @@ def SSI_fast(
     # SINGULAR VALUE DECOMPOSITION
     U1, SIG, V1_t = np.linalg.svd(H)
     Uom = U1[:, :ordmax]
-    Vom = V1_t[:, :ordmax]
+    Vom = V1_t[:ordmax, :].T
     Som = SIG[:ordmax]
     S1rad = np.sqrt(np.diag(SIG))
     # initializing arrays
